@@ -23,6 +23,7 @@ wtmo <i> <client> <N> <MiB>                          -> <i> small Err,.. big Err
 seq <i> <client> <T> <K>                             -> <i> ok <T*K>
 seqbig <i> <client> <T> <K> <nbig>                   -> <i> ok <T*K>   (ws: oversized requests refused meanwhile)
 fwd <i> 1 <ids|dup|reuse>                            -> <i> ok         (forward_message, caller-chosen ids)
+life <i> <client> <seed>                             -> <i> ok         (one client, long mixed sequence)
 fwdres <i> 1                                         -> <i> ok         (forward timed out / cancelled: no residue)
 sched <i> <client> <N> <S0,W0,Fr0,D,T0,C0,X,A,..>    -> <i> got <tag|T|E|HANG|->,.. gates <m|u|n>,..
       (forced on the real client through the verif-hooks probe points, see fam_mux.rs `mod sched`)
@@ -362,6 +363,15 @@ def stepLine (_ : Unit) (ws : List String) : Unit × String :=
     match cfgOf (natOf client) with
     | none => bad i
     | some cfg => ((), i ++ (if runSeq cfg 3 == "ok 3" then " ok" else " bad"))
+  | ["life", i, client, _seed] =>
+    -- one client through timeouts, error responses, failed serialisations, notifies, a batch, a cancel:
+    -- in the model each of these leaves the state in which the next call is served (`others_still_served`)
+    match cfgOf (natOf client) with
+    | none => bad i
+    | some cfg =>
+      let a := runTmo cfg "late"
+      let b := runCancel cfg "wait"
+      ((), i ++ (if a == "first Timeout next own" && b == "cancelled next own residue 0" && runSeq cfg 4 == "ok 4" then " ok" else " bad"))
   | ["fwdres", i, client] =>
     match cfgOf (natOf client) with
     | none => bad i
